@@ -34,6 +34,18 @@ type c10Case struct {
 	Second    string   `json:"second"`               // none | satisfied | unsatisfied | wrongform
 	// Extra unrelated imports (random part).
 	Extra []string `json:"extra,omitempty"`
+
+	// MetaPkg: the change also declares an identifier metavariable that is
+	// called like the package of its package clause (a variable "client" in
+	// package client). The clause is still a guard.
+	MetaPkg bool `json:"meta_pkg,omitempty"`
+	// Prelude: an earlier change of the same patch file, which never applies
+	// (its code occurs nowhere), with the same import clause as this one but
+	// the other reading of its name:
+	//   meta-of-named    the earlier change declares "nm" a metavariable
+	//   literal-of-meta  the earlier change uses "mv" as a literal name
+	// Metavariables are declared per change.
+	Prelude string `json:"prelude,omitempty"`
 }
 
 // c10GuardedPath returns the guarded import path and the package name a tool
@@ -146,9 +158,18 @@ var c10BodyText = map[string]string{
 func c10Build(cs *c10Case) (patch, file string) {
 	c10Path, guess := c10GuardedPath(cs.PathStyle)
 	var p strings.Builder
+	switch cs.Prelude {
+	case "meta-of-named":
+		p.WriteString(fmt.Sprintf("@@\nvar nm identifier\n@@\n import nm %q\n\n-c10never(1)\n+c10never(2)\n\n", c10Path))
+	case "literal-of-meta":
+		p.WriteString(fmt.Sprintf("@@\n@@\n import mv %q\n\n-c10never(1)\n+c10never(2)\n\n", c10Path))
+	}
 	p.WriteString("@@\n")
 	if cs.PatchForm == "meta" {
 		p.WriteString("var mv identifier\n")
+	}
+	if gp, _, _ := c10PkgNames(cs.Pkg); cs.MetaPkg && gp != "" {
+		p.WriteString("var " + gp + " identifier\n")
 	}
 	p.WriteString("@@\n")
 	pfx := " "
@@ -303,7 +324,7 @@ func evalC10(cs *c10Case) (sig, msg string, applies bool) {
 		return "apply-error", fmt.Sprintf("Apply fails: %s\npatch:\n%s\nfile:\n%s", r.ApplyErr, patch, file), want
 	}
 	got := bytes.Contains(r.Out, []byte("tgq(1)"))
-	desc := fmt.Sprintf("patch form %s (%s line), file imports the path as %v (path style %q, literal spelled %q), layout %s, package clause %s, second guard %s, body %q", cs.PatchForm, cs.LineKind, cs.FileForms, cs.PathStyle, cs.Spelling, cs.Layout, cs.Pkg, cs.Second, cs.Body)
+	desc := fmt.Sprintf("prelude %q, metavariable named like the package: %v, ", cs.Prelude, cs.MetaPkg) + fmt.Sprintf("patch form %s (%s line), file imports the path as %v (path style %q, literal spelled %q), layout %s, package clause %s, second guard %s, body %q", cs.PatchForm, cs.LineKind, cs.FileForms, cs.PathStyle, cs.Spelling, cs.Layout, cs.Pkg, cs.Second, cs.Body)
 	switch {
 	case want && !got:
 		multi := ""
@@ -379,13 +400,32 @@ func TestC10(t *testing.T) {
 										if pf == "absent" && pk == "absent" && sd == "none" {
 											continue // no guard at all
 										}
-										cs := &c10Case{PatchForm: pf, FileForms: fs, Layout: lo, Pkg: pk, LineKind: lk, Second: sd, Body: body, PathStyle: style, Spelling: spelling}
-										sig, msg, applies := evalC10(cs)
-										c10Record(cs, applies)
-										if sig != "" {
-											violate(softFataler{t}, "C10", sig, msg, cs)
-											if t.Failed() {
-												return
+										variants := []*c10Case{{PatchForm: pf, FileForms: fs, Layout: lo, Pkg: pk, LineKind: lk, Second: sd, Body: body, PathStyle: style, Spelling: spelling}}
+										if body == "" && style == "" && spelling == "" && sd == "none" && (lo == "group" || lo == "singles-among") {
+											if pk != "absent" {
+												v := *variants[0]
+												v.MetaPkg = true
+												variants = append(variants, &v)
+											}
+											if pf == "named" {
+												v := *variants[0]
+												v.Prelude = "meta-of-named"
+												variants = append(variants, &v)
+											}
+											if pf == "meta" {
+												v := *variants[0]
+												v.Prelude = "literal-of-meta"
+												variants = append(variants, &v)
+											}
+										}
+										for _, cs := range variants {
+											sig, msg, applies := evalC10(cs)
+											c10Record(cs, applies)
+											if sig != "" {
+												violate(softFataler{t}, "C10", sig, msg, cs)
+												if t.Failed() {
+													return
+												}
 											}
 										}
 									}
@@ -412,6 +452,13 @@ func TestC10(t *testing.T) {
 			Body:      rapid.SampledFrom(c10Bodies).Draw(rt, "body"),
 			PathStyle: rapid.SampledFrom(c10Styles).Draw(rt, "style"),
 			Spelling:  rapid.SampledFrom(c10Spellings).Draw(rt, "spelling"),
+			MetaPkg:   rapid.IntRange(0, 3).Draw(rt, "metaPkg") == 0,
+		}
+		switch cs.PatchForm {
+		case "named":
+			cs.Prelude = rapid.SampledFrom([]string{"", "meta-of-named"}).Draw(rt, "prelude")
+		case "meta":
+			cs.Prelude = rapid.SampledFrom([]string{"", "literal-of-meta"}).Draw(rt, "prelude")
 		}
 		nExtra := rapid.IntRange(0, 5).Draw(rt, "nExtra")
 		for i := 0; i < nExtra; i++ {
